@@ -123,3 +123,23 @@ Print Assumptions C14_bitsem_slice_splice_same.
 Theorem C14_bitsem_slice_splice_other : ltac:(let T := type of (@slice_splice_other bool) in exact T).
 Proof. exact (@slice_splice_other bool). Qed.
 Print Assumptions C14_bitsem_slice_splice_other.
+
+(* ------------------------------------------------------------------ source level, proved for the
+   imperative scalar fragment: after a block with let / let mut / assignments / if-else /
+   && / || (branches and operands with effects), every variable of the enclosing scopes holds,
+   in the bit-level semantics, the encoding of the value the source semantics gives it
+   (env_rel3 is preserved), i.e. the values of the path actually taken and of no other. *)
+From GV Require Import Lang.Wt Compile.TSemSemExpr Compile.TSemSemStmt.
+
+Theorem C14_imperative_scalar_blocks_merge_variables_as_the_source_semantics :
+  forall P fuel fw g b t en E fT w E' o',
+  sc_block fw ([] :: g) b = Some t -> forallb imp_stmt b = true -> env_rel3 VRs en E g ->
+  lower_block tops fT P b E None = Ok ((w, E'), o') ->
+  match Sem.obind (Sem.exec_block fuel P (Sem.push_scope en) b)
+                  (fun '(v, en1) => Sem.Done (v, Sem.pop_scope en1)) with
+  | Sem.Done (v, en') => o' = None /\ VRs t v w /\ env_rel3 VRs en' E' g
+  | Sem.Panicked r m => o' = Some (preason_num (pr r), PanicSem.ploc32 (ploc_of m))
+  | Sem.Stuck _ | Sem.NoFuel => True
+  end.
+Proof. exact tsem_sem_imp_block. Qed.
+Print Assumptions C14_imperative_scalar_blocks_merge_variables_as_the_source_semantics.
